@@ -18,7 +18,7 @@ Print Assumptions C18_written_storages_allocated_in_call.
 
 (** * The clone clause: heap model of the container layer (Model/Heap.v)
     "In-place operations on a clone of a PatternedTensor or MultiTensor never change the source." *)
-Require Import Fggs.Model.Heap Fggs.Proofs.Heap_frame Fggs.Proofs.Heap_clone.
+Require Import Fggs.Model.Heap Fggs.Proofs.Heap_frame Fggs.Proofs.Heap_clone Fggs.Proofs.Heap_mclone.
 
 (** (d) frame: an operation mutates only the objects [mutates st o] says (a function of the
     operation and the state it starts in: its target argument and, for MultiTensor.copy_, the
@@ -91,6 +91,17 @@ Theorem C18_mclone_deep :
               forall e, In e (map snd d) -> In e (seq c (length (st_objs st0) - c)) /\ e <> c.
 Proof. exact mclone_deep. Qed.
 Print Assumptions C18_mclone_deep.
+
+(** the clone of a MultiTensor denotes what the source denotes: same keys in the same order, every
+    element with the denotation of the source's element (source with distinct keys whose elements
+    and their storages exist) *)
+Theorem C18_mclone_equal :
+  forall st x dx st0 c,
+    get_mt st x = Some dx -> NoDup (map fst dx) ->
+    closed (length (st_objs st)) (length (st_store st)) st x ->
+    step st (OMClone x) = (st0, ORefs [c]) -> den st0 c = den st x.
+Proof. exact mclone_equal. Qed.
+Print Assumptions C18_mclone_equal.
 
 (** what the seeded change seeded/C18-d does ([c = MultiTensor(...); c += self]) is refuted: the
     elements are shared and copy_ into the "clone" changes the source *)
